@@ -90,6 +90,68 @@ def show(x):
     return json.dumps(x)[:80]
 
 
+def _subst(e, env):
+    """replace references to const locals by their (normalised) initialisers"""
+    if isinstance(e, list):
+        return [_subst(x, env) for x in e]
+    if not isinstance(e, dict):
+        return e
+    if e.get("k") == "ref" and e.get("n") in env:
+        return env[e["n"]]
+    return dict((k, _subst(v, env)) for k, v in e.items())
+
+
+def _atoms(c, taken):
+    """normalised (atom, polarity) pairs a condition contributes when it evaluates to `taken`; None when it is a disjunction
+    that cannot be split"""
+    c0 = c
+    while isinstance(c0, dict) and c0.get("k") == "un" and c0.get("op") == "!":
+        taken = not taken
+        c0 = c0["e"]
+    if isinstance(c0, dict) and c0.get("k") == "bin" and c0.get("op") in ("&&", "||"):
+        if (c0["op"] == "&&") == taken:
+            l, r = _atoms(c0["l"], taken), _atoms(c0["r"], taken)
+            if l is not None and r is not None:
+                return l + r
+        return [(json.dumps(c0, sort_keys=True), taken)]
+    return [(json.dumps(c0, sort_keys=True), taken)]
+
+
+def path_signature(f):
+    """the function as a set of structural paths: (sorted test atoms with polarity, effects in order, returned expression),
+    with const locals substituted and negations folded into the polarity. Two bodies with the same signature make the same
+    decisions and return the same expressions, whatever the order and nesting of their tests."""
+    from . import sets as SP
+    sig = set()
+    try:
+        paths = SP.normalised_paths(f["body"])
+    except Exception:
+        return None
+    if not paths or len(paths) > 64:
+        return None
+    for p in paths:
+        env = {}
+        conds, effects, ret = [], [], None
+        for ev in p:
+            if ev[0] == "decl":
+                v = ev[1]
+                if v.get("init") is not None and not v.get("bindings"):
+                    env[v["n"]] = _subst(norm(v["init"]), env)
+                else:
+                    effects.append(json.dumps(("decl", v.get("n"), _subst(norm(v.get("init")), env)), sort_keys=True))
+            elif ev[0] in ("cond", "backedge-cond"):
+                a = _atoms(_subst(norm(ev[1]), env), ev[2] if ev[0] == "cond" else True)
+                conds += [(x, bool(t), ev[0]) for x, t in (a or [])]
+            elif ev[0] == "expr":
+                effects.append(json.dumps(_subst(norm(ev[1]), env), sort_keys=True))
+            elif ev[0] == "ret":
+                ret = json.dumps(_subst(norm(ev[1]), env), sort_keys=True) if ev[1] is not None else "void"
+            else:
+                effects.append(ev[0])
+        sig.add((tuple(sorted(set(conds))), tuple(effects), ret))
+    return frozenset(sig)
+
+
 def delegates_to_sibling(f):
     """the body is `return <sibling of the same name>(...)` on this object seen through a cast / as_const"""
     b = f.get("body")
@@ -165,8 +227,15 @@ def check(chk, db, prefixes, rule="SIB"):
         if ns:
             keys = [json.dumps(x, sort_keys=True) for _g, x in ns]
             ref_i = max(range(len(keys)), key=lambda i: (keys.count(keys[i]), -i))
+            ref_sig = None
             for i, (g, x) in enumerate(ns):
                 if keys[i] != keys[ref_i]:
+                    # same decisions and results in another arrangement (inverted test, reordered branches, named locals)?
+                    if ref_sig is None:
+                        ref_sig = path_signature(ns[ref_i][0])
+                    sg = path_signature(g)
+                    if ref_sig is not None and sg is not None and sg == ref_sig:
+                        continue
                     p, a, b = first_diff(ns[ref_i][1], x)
                     diff = (ns[ref_i][0], g, a, b)
                     break
